@@ -624,3 +624,12 @@ def generate(rng, tier: str, boost: int):
             p = "x" * size
             yield {"kind": "seq", "spec": spec, "api": api, "datagrams": [p.encode().hex()], "valid": [sers.enc_val(p)],
                    "kinds": ["large"], "send": [], "conv": False}
+
+
+# ---- generic framers ----
+# file-based / compressor framers (Lean model GenericFr): adds the case kind "generic" and gives the existing cases whose
+# serializer is a file toy or a zlib/bz2 wrapper a model run (see vlib/genericfr.py, docs/GENERICFR.md)
+from vlib import genericfr as _genericfr  # noqa: E402
+
+_genericfr.install(globals(), "C05")
+# ---- end generic framers ----
